@@ -160,7 +160,7 @@ class STL(MasterIO):
         # perform evaluation and make sure that we have 3 components (in case of 2D geometries)
         x = surface(u,v)
         if x.shape[2] != 3:
-            x.resize((x.shape[0],x.shape[1],3))
+            x = np.concatenate((x, np.zeros((x.shape[0], x.shape[1], 3 - x.shape[2]))), axis=2)
 
         # compute tiny quad pieces
         faces = [[x[i,j], x[i,j+1], x[i+1,j+1], x[i+1,j]] for i in range(x.shape[0]-1) for j in range(x.shape[1]-1)]
